@@ -102,7 +102,7 @@ SPEC = {
         "float_round_nearest_even", "int_to_float_nearest_even", "float_to_float_nearest_even", "float_widen_exact",
         "float_to_int_trunc_saturate", "float_narrowing_is_c10_narrow32", "position_rules_as_reviewed", "position_count_agrees", "position_count_complete",
         "position_count_rejections", "case_label_value", "const_initialiser_value", "template_argument_value",
-        "template_argument_not_converted", "lod_property_value_partial", "lod_property_refuses_valid_values",
+        "template_argument_not_converted", "lod_property_value", "lod_property_complete", "lod_property_rejections",
         "enum_values_c_semantics", "enum_rejected_only_out_of_range", "enum_overflow_only_at_type_max", "enum_no_panic"]],
     "harness": "c13",
     "nontrivial": nontrivial,
@@ -123,9 +123,11 @@ SPEC = {
                   "template argument may have, const-only folding) is re-extracted from the source and proved sound and complete against "
                   "the integer value of the specified result, for every kind of constant (untyped literal, int, uint, bool, enum); "
                   "enum definitions (explicit values, implicit successors, references to earlier enumerators, overflow, deduction of the "
-                  "underlying type) are proved to have C semantics for enumerator lists of any length and never to panic. Two statements "
-                  "that are false on the pinned source are proved in the negative with witnesses replayed on the real compiler (template "
-                  "arguments are not converted to the parameter type; float properties refuse float literals and negative ints). "
+                  "underlying type) are proved to have C semantics for enumerator lists of any length and never to panic; float-valued "
+                  "properties (Constant::to_f32) are proved sound and complete against the HLSL conversion to float (every bool, integer "
+                  "or float constant of a 32-bit kind, untyped float literals and negative ints included, is accepted with the converted "
+                  "value; only enums and strings are refused). One statement that is false on the pinned source is proved in the negative "
+                  "with witnesses replayed on the real compiler (template arguments are not converted to the parameter type). "
                   "The models are compared with the real code on boundary-value trees (direct IR and IR from the real type checker), on "
                   "78 position programs per expression and on whole enum definitions; an independent Rust reference evaluator judges "
                   "every real result, including the number printed in the emitted HLSL.",
@@ -152,8 +154,8 @@ SPEC = {
         "operand-loop asserts, ScalarType::get_size; Gen.EvalSites: every call of evaluate_constexpr in the workspace; Gen.PosTable: "
         "arms of Constant::to_uint64 / to_f32, the conversion and guards of parse_declarator, add_stage, extract_uint32, "
         "parse_expr_as_u32, parse_statement_attribute, WriteMask, case labels, const-only folding of initialisers, kinds accepted by "
-        "parse_and_evaluate_constant_expression, first/successor/overflow arms of parse_rootdefinition_enum, range kinds, candidate "
-        "types and conversions of end_enum) — re-run on /repo's working tree every time; unknown shapes are extraction errors",
+        "parse_and_evaluate_constant_expression, first/successor/overflow arms of parse_rootdefinition_enum, the type recorded with an "
+        "enumerator (type of the evaluated constant), range kinds, candidate types and conversions of end_enum) — re-run on /repo's working tree every time; unknown shapes are extraction errors",
         "hand-written Model/ConstEval.lean and Model/ConstPos.lean (control flow of the modelled functions; Rust integer semantics of "
         "plain/wrapping/checked operations and `as` casts) — tied to the code by the correspondence run",
         "Model/ConstEvalFloat.lean `decode` (meaning of an IEEE-754 bit pattern), `cmp`, `neg`, `neZero`: given; `round`, `ofInt`, "
@@ -172,7 +174,7 @@ SPEC = {
         "integer-like constant (type soundness of the front end) — all are evaluated by the model on every tree / definition the real "
         "type checker produced (C13.hyp, C13.enumhyp)",
         "overflow panics are those of a build with overflow-checks (the harness profile); release builds wrap instead; the type "
-        "self-check of parse_expr_internal (debug_assertions) is outside the model: definitions that trip it are answered `unsupported`",
+        "self-check of parse_expr_internal (debug_assertions) is outside the model: a panic of it is an oracle failure, never an `unsupported`",
         "NaN payload propagation of f64->f32 conversion follows x86 cvtsd2ss (NaN constants cannot be written in source)",
         "positions whose value flows through further declarations (flow_*), the conversion of `return N` in template bodies, "
         "RayQuery flags and assert_eval acceptance are judged by the reference evaluator only (no Lean model); name clashes of "
